@@ -1,2 +1,4 @@
 import Proofs.TopicBasic
+import Proofs.TopicMatch
+import Proofs.TopicOps
 import Proofs.Session
